@@ -28,6 +28,10 @@ type c10Scenario struct {
 	OffAt    int       `json:"off_at"`        // > ToggleAt: Config.Flood is set back to false before this line; -1 never
 	Wide        bool   `json:"wide"`          // payload made of three-byte characters
 	ReconnectAt int    `json:"reconnect_at"`  // >=0: before this line the client is closed and connects again at once (the penalty is the client's, not the connection's)
+	// HoldCloseAt >= 0: the line with this index must be held back by construction; while it is, the client is
+	// closed (the line is lost), idles HoldIdleMS, connects again, and the remaining lines follow
+	HoldCloseAt int `json:"hold_close_at"`
+	HoldIdleMS  int `json:"hold_idle_ms"`
 	Lines    []c10Line `json:"lines"`
 
 	createdLo, createdHi time.Time // set by the run: when the client (and with it the penalty clock) was created
@@ -39,6 +43,7 @@ type c10Obs struct {
 	enq    time.Time // just before the call that queued the line
 	wire   time.Time // stamped inside the socket Write
 	exempt bool      // issued while Config.Flood was true
+	ghost  bool      // accounted (it was being held back) but never written: the connection was closed under it
 }
 
 func charge(chars int) time.Duration {
@@ -50,10 +55,18 @@ const c10Tol = 250 * time.Millisecond    // stated tolerance of the window bound
 
 func genC10(t *rapid.T, maxLines int, idx int) *c10Scenario {
 	// the composition of a batch is fixed: every sixth scenario has Flood set, every sixth toggles it
-	sc := &c10Scenario{ToggleAt: -1, OffAt: -1, ReconnectAt: -1, FloodOff: idx%6 == 5, Wide: idx%2 == 1}
+	sc := &c10Scenario{ToggleAt: -1, OffAt: -1, ReconnectAt: -1, HoldCloseAt: -1, FloodOff: idx%6 == 5, Wide: idx%2 == 1}
 	n := rapid.IntRange(3, maxLines).Draw(t, "nlines")
 	for i := 0; i < n; i++ {
 		sc.Lines = append(sc.Lines, c10Line{Len: rapid.SampledFrom([]int{0, 1, 50, 120, 300, 500}).Draw(t, "len"), GapMS: rapid.SampledFrom([]int{0, 0, 0, 500, 2500, 6000}).Draw(t, "gap_ms")})
+	}
+	if idx%12 == 8 {
+		// NICK, USER and three 120-byte lines: the second is held back (3 s), the third would be next; the
+		// client is closed while the third is being held, idles until NICK and USER of the next connection are
+		// certainly free again, and then sends a 500-byte line that certainly is not
+		sc.Lines = []c10Line{{Len: 120}, {Len: 120}, {Len: 120}, {Len: 500}}
+		sc.HoldCloseAt, sc.HoldIdleMS = 2, 5000
+		return sc
 	}
 	if idx%6 == 2 {
 		// build a penalty, drop the connection, reconnect at once: registration and what follows are
@@ -109,6 +122,7 @@ func runC10One(sc *c10Scenario) ([]c10Obs, *Violation) {
 	}
 	conn := tc.conn()
 	total := 2
+	heldLine := ""
 	regStarts := []time.Time{regStart}
 	disc := make(chan struct{}, 2)
 	tc.C.HandleFunc(client.DISCONNECTED, func(*client.Conn, *client.Line) { disc <- struct{}{} })
@@ -137,6 +151,27 @@ func runC10One(sc *c10Scenario) ([]c10Obs, *Violation) {
 			conn = tc.conn()
 			total = 2
 		}
+		if sc.HoldCloseAt >= 0 && k == sc.HoldCloseAt+1 {
+			// everything but the last line issued is on the wire; that one is being held back
+			if !waitWire(total - 1) {
+				return nil, violationf("C10", "lines before the held one never reached the wire")
+			}
+			time.Sleep(c10Slack + 100*time.Millisecond) // its accounting has certainly happened by now
+			go tc.C.Close()
+			select {
+			case <-disc:
+			case <-time.After(stallTimeout()):
+				return nil, violationf("C10", "no DISCONNECTED when the client was closed while a line was held back")
+			}
+			waitCond(stallTimeout(), func() bool { n, _, _ := connGoroutines(tc.C); return n == 0 })
+			time.Sleep(time.Duration(sc.HoldIdleMS) * time.Millisecond)
+			regStarts = append(regStarts, time.Now())
+			if err := tc.connect(); err != nil {
+				return nil, violationf("C10", "reconnect: %v", err)
+			}
+			conn = tc.conn()
+			total = 2
+		}
 		if k == sc.ToggleAt {
 			if !waitWire(total) {
 				return nil, violationf("C10", "queue did not drain before the Flood toggle")
@@ -158,6 +193,9 @@ func runC10One(sc *c10Scenario) ([]c10Obs, *Violation) {
 		enq[line] = time.Now()
 		exempt[line] = sc.FloodOff || (sc.ToggleAt >= 0 && k >= sc.ToggleAt && !(sc.OffAt > sc.ToggleAt && k >= sc.OffAt))
 		mu.Unlock()
+		if k == sc.HoldCloseAt {
+			heldLine = line
+		}
 		tc.C.Raw(line)
 		total++
 	}
@@ -165,6 +203,7 @@ func runC10One(sc *c10Scenario) ([]c10Obs, *Violation) {
 		return nil, violationf("C10", "only %d of %d lines reached the wire within 5 minutes", strings.Count(conn.Written(), "\r\n"), total)
 	}
 	var obs []c10Obs
+	written := map[string]bool{}
 	for ci, cn := range tc.S.Conns() {
 		for _, w := range cn.Writes() {
 			for _, l := range strings.Split(strings.TrimSuffix(w.Data, "\r\n"), "\r\n") {
@@ -173,7 +212,12 @@ func runC10One(sc *c10Scenario) ([]c10Obs, *Violation) {
 					o.enq, o.exempt = e, exempt[l]
 				}
 				obs = append(obs, o)
+				written[l] = true
 			}
+		}
+		if ci == 0 && heldLine != "" && !written[heldLine] {
+			// the line the first connection was closed under: charged, never written
+			obs = append(obs, c10Obs{line: heldLine, chars: len(heldLine), enq: enq[heldLine], ghost: true})
 		}
 	}
 	return obs, nil
@@ -186,7 +230,7 @@ func checkC10(sc *c10Scenario, obs []c10Obs) (held, free int, v *Violation) {
 	}
 	// (iv) lines issued with Flood set are never delayed
 	for k, o := range obs {
-		if !o.exempt {
+		if !o.exempt || o.ghost {
 			continue
 		}
 		ready := o.enq
@@ -200,8 +244,14 @@ func checkC10(sc *c10Scenario, obs []c10Obs) (held, free int, v *Violation) {
 	n := len(obs)
 	// (i) window bound, delay-independent, over every run of consecutive rate-limited lines
 	for i := 0; i < n; i++ {
+		if obs[i].ghost {
+			continue
+		}
 		var sum time.Duration
 		for j := i; j < n && !obs[j].exempt; j++ {
+			if obs[j].ghost {
+				continue // never written: it only makes the real penalty larger
+			}
 			sum += charge(obs[j].chars)
 			window := obs[j].wire.Sub(obs[i].wire)
 			if bound := window + 10*time.Second + charge(obs[i].chars) + charge(obs[j].chars) + c10Tol; sum > bound {
@@ -220,8 +270,16 @@ func checkC10(sc *c10Scenario, obs []c10Obs) (held, free int, v *Violation) {
 			continue
 		}
 		ready := o.enq
-		if k > 0 && obs[k-1].wire.After(ready) {
-			ready = obs[k-1].wire
+		for p := k - 1; p >= 0; p-- {
+			if !obs[p].ghost {
+				if obs[p].wire.After(ready) {
+					ready = obs[p].wire
+				}
+				break
+			}
+		}
+		if o.ghost {
+			o.wire = ready.Add(c10Slack) // stands for "accounted within the slack of becoming ready"
 		}
 		L := charge(o.chars)
 		// this line's accounting happens after it became ready and before it was written; it is
@@ -257,6 +315,8 @@ func checkC10(sc *c10Scenario, obs []c10Obs) (held, free int, v *Violation) {
 		}
 		delay := o.wire.Sub(ready)
 		switch {
+		case o.ghost:
+			// no verdict on a line that never reached the wire
 		case nlo > 10*time.Second:
 			held++
 			if delay < L {
